@@ -47,6 +47,19 @@ def r2(ctx):
         ins = sites(fc, CACHE_INSERT)
         good = bool(ins) and all("initial_nodes" in term_str(fc.arg_origin(s, 2)) for s in ins)
         ctx.check(P, rule, "the cache is seeded only with the nodes it is given", good, "for node in initial_nodes { insert(node.index, node) }", "to_node_cache inserts something other than initial_nodes")
+    # the cache is a map index -> node: every insert, wherever it is, files the node under its own index
+    # (Node has several u64 fields; `node.parent` or `node.length` as the key compiles just as well)
+    n_ins = 0
+    for fx in ctx.all_fas():
+        for s_ in sites(fx, CACHE_INSERT):
+            n_ins += 1
+            k_, v_ = strip(fx.arg_origin(s_, 1)), strip(fx.arg_origin(s_, 2))
+            good = k_[0] == "field" and k_[2] == "index" and term_sig(strip(k_[1])) == term_sig(v_)
+            ctx.check(P, rule, "%s: a node is cached under its own index" % fn_of(fx.body.name).split("::")[-1], good, "insert(node.index, node)",
+                      "%s inserts %s into the node cache under the key %s: MerkleTree::node looks nodes up by index, so a later read of that key returns another node" % (fn_of(fx.body.name).split("::")[-1], term_str(v_)[:60], term_str(k_)[:60]),
+                      [site_desc(fx, s_)], key="C14|C14.R2|%s|cache key" % fn_of(fx.body.name).split("::")[-1])
+    if n_ins < 2 and "cache" in ctx.crate.features:
+        ctx.missing(P, rule, "node cache insert sites", "found %d (floor 2)" % n_ins)
     fo = ctx.fn(MT_OPEN)
     if need(ctx, P, rule, MT_OPEN, fo):
         seeds = []
